@@ -87,3 +87,34 @@ package bcast
 //@ loop 2 invariant len(sigs) == len(c.peers) && ncalls(c.sendFunc) == 0
 //@ loop 3 invariant len(sigs) == len(c.peers) && ncalls(c.sendFunc) == 0
 //@ loop 4 invariant true
+
+// ---- wiring: one hash / sign / verify function triple, bound to the session hash and the peer list, serves client and server
+//@ func New
+//@ props C13
+//@ callreq newHashAny: a1 == sessionHash
+//@ callreq c.newPeerK1Verifier: a1 == hashFunc
+//@ callreq newClient: a2 == peers && a5 == hashFunc && a6 == signFunc && a7 == verifyFunc
+//@ callreq newServer: a2 == signFunc && a3 == hashFunc && a4 == verifyFunc
+//@ ensures ncalls(newClient) == 1 && ncalls(newServer) == 1 && ncalls(newHashAny) == 1
+
+//@ func newClient
+//@ props C13
+//@ ensures result.peers == peers && result.hashFunc == hashFunc && result.signFunc == signFunc && result.verifyFunc == verifyFunc
+
+//@ func newServer
+//@ props C13
+//@ ensures result.signFunc == signFunc && result.hashFunc == hashFunc && result.verifyFunc == verifyFunc
+//@ ensures len(result.dedup) == 0 && len(result.msgIDFuncs) == 0
+
+//@ func (s *server) registerMessageIDFuncs
+//@ props C13
+//@ assigns s.msgIDFuncs
+//@ ensures has(s.msgIDFuncs, msgID) && s.msgIDFuncs[msgID].callback == cb && s.msgIDFuncs[msgID].checkMessage == cm
+//@ ensures forallk(k, old(s.msgIDFuncs), k != msgID ==> has(s.msgIDFuncs, k) && s.msgIDFuncs[k] == old(s.msgIDFuncs)[k])
+
+//@ func (c *Component) RegisterMessageIDFuncs
+//@ props C13
+//@ callreq c.srv.registerMessageIDFuncs: a1 == msgID && a2 == callback && a3 == checkMessage
+//@ ensures has(c.allowedMsgIDs, msgID) && ncalls(c.srv.registerMessageIDFuncs) == 1
+//@ ensures forallk(k, old(c.allowedMsgIDs), has(c.allowedMsgIDs, k))
+
